@@ -152,6 +152,33 @@ tround_tdur(struct dt_t_s t, struct dt_dtdur_s dur, bool nextp)
 		downp = true;
 	}
 
+	if (UNLIKELY(t.hms.h >= HOURS_PER_DAY)) {
+		/* military midnight, 24:00:00 is 00:00:00 of the following day */
+		signed int v;
+
+		switch (dur.durtyp) {
+		case DT_DURH:
+			v = 0;
+			break;
+		case DT_DURM:
+			v = t.hms.m;
+			break;
+		case DT_DURS:
+			v = t.hms.s;
+			break;
+		default:
+			return t;
+		}
+		if (v == dv && !nextp) {
+			/* on target already, leave the notation alone */
+			return t;
+		}
+		t.hms.h = 0;
+		t = tround_tdur(t, dur, nextp);
+		t.carry++;
+		return t;
+	}
+
 	switch (dur.durtyp) {
 	case DT_DURH:
 		if ((!downp && t.hms.h < dv) ||
